@@ -16,7 +16,7 @@ SMOOTHERS = ["none", "lowess", "modsinc", "savgol", "whithend"]
 INTERPOLATORS = ["akima", "makima", "cubic", "pchip"]
 CONSTANT_PHASE = {
     "R": "R{R=120}", "R-small": "R{R=3e-3}", "C": "C{C=2e-5}", "C-small": "C{C=4e-9}", "L": "L{L=1e-3}", "L-big": "L{L=0.5}",
-    "Q0.5": "Q{Y=1e-2,n=0.5}", "Q0.8": "Q{Y=1e-4,n=0.8}", "Q1": "Q{Y=3e-6,n=1}", "W": "W{Y=1e-3}", "W-big": "W{Y=4}",
+    "R-giga": "R{R=1e9}", "C-femto": "C{C=1e-15}", "Q0.5": "Q{Y=1e-2,n=0.5}", "Q0.8": "Q{Y=1e-4,n=0.8}", "Q1": "Q{Y=3e-6,n=1}", "W": "W{Y=1e-3}", "W-big": "W{Y=4}",
 }
 LADDERS = {
     "RC": "R{R=10}(R{R=100}C{C=1e-4})",
@@ -26,7 +26,7 @@ LADDERS = {
     "RQ-RQ": "R{R=2}(R{R=30}Q{Y=5e-4,n=0.9})(R{R=90}Q{Y=6e-3,n=0.75})",
     "RC3": "R{R=1}(R{R=10}C{C=1e-5})(R{R=25}C{C=1e-3})(R{R=15}C{C=5e-2})",
 }
-GRIDS = {"g43": (4, -2, 43), "g31": (5, 0, 31), "g61": (3, -3, 61)}
+GRIDS = {"g43": (4, -2, 43), "g31": (5, 0, 31), "g61": (3, -3, 61), "g43hi": (6, 0, 43)}
 NP_ORDER = [(3, 2), (5, 2), (5, 3), (7, 4)]
 
 
@@ -137,6 +137,28 @@ def run_case(case: dict, st=None) -> Tuple[List[dict], str]:
             viol(f"window-all-zero|{case['window']}", f"window '{case['window']}' gives zero weight everywhere inside the window")
         return viols, "ok"
 
+    if part == "window-sequence":
+        # the same named window on two grids with equally many points but different frequency ranges, one call after the other in
+        # this (freshly forked) process; the modulus is corrupted outside the window, so only correctly placed weights give the truth
+        lo_, hi_ = case["center"] - case["width"] / 2, case["center"] + case["width"] / 2
+        for gname in case["grids"]:
+            c2 = dict(case, grid=gname)
+            f, Z = make_data(c2, st)
+            outside = (np.log10(f) < lo_ - 1e-9) | (np.log10(f) > hi_ + 1e-9)
+            Zc = np.where(outside, Z * 3.0, Z)
+            try:
+                r = zhit_call(f, Zc, c2, st, None)
+            except Exception as e:
+                viol(f"raises|{type(e).__name__}|{exc_signature(e).split('@')[-1]}|named-window", f"perform_zhit raised {type(e).__name__}: {str(e)[:90]}")
+                return viols, "violation"
+            inside = ~outside
+            err = float(np.max(np.abs(np.abs(r.impedances[inside]) / np.abs(Z[inside]) - 1)))
+            if not err <= 2e-4:
+                viol(f"offset-uses-points-outside-the-window|{'first' if gname == case['grids'][0] else 'second'}-call",
+                     f"window '{case['window']}' (centre {case['center']}, width {case['width']}) on grid {gname}: the offset is influenced by points outside the window (modulus error inside the window {err:.3g}) - "
+                     + ("first call" if gname == case["grids"][0] else f"after an earlier call with the same window on grid {case['grids'][0]}"))
+                return viols, "violation"
+        return viols, "ok"
     f, Z = make_data(case, st)
     w = weights_for(case, f, st)
     try:
@@ -172,6 +194,8 @@ def run_case(case: dict, st=None) -> Tuple[List[dict], str]:
             viol(f"scaling|{opts}", f"scaling the impedance by {a:g} does not scale the reconstruction by the same constant (rel. {d:.3g}) [{opts}]")
         if r.pseudo_chisqr > 1e-6 and abs(r2.pseudo_chisqr / r.pseudo_chisqr - 1) > 1e-2:
             viol(f"scaling-chisqr|{opts}", f"scaling the impedance by {a:g} changes pseudo chi-squared by a factor {r2.pseudo_chisqr / r.pseudo_chisqr:.6g}")
+    elif part == "window-sequence":
+        pass  # handled before the generic call (see below)
     elif part == "zero-weight":
         # moduli at zero-weight points changed (phase kept): the reconstruction must be bit-identical
         Z2 = Z.copy()
@@ -185,6 +209,12 @@ def run_case(case: dict, st=None) -> Tuple[List[dict], str]:
     return viols, "ok"
 
 
+def _run_isolated(case):
+    from vf.explore import in_child
+
+    return in_child(lambda: run_case(case))
+
+
 def _chunk(cases) -> dict:
     st = setup()
     viols: Dict[str, dict] = {}
@@ -193,7 +223,7 @@ def _chunk(cases) -> dict:
     n = 0
     for case in cases:
         try:
-            v, o = run_case(case, st)
+            v, o = _run_isolated(case) if case["part"] == "window-sequence" else run_case(case, st)
         except Exception as e:
             v, o = [{"key": f"zhit|raises|{type(e).__name__}|{exc_signature(e).split('@')[-1]}|second-call", "what": f"perform_zhit raised {type(e).__name__}: {str(e)[:90]}",
                      "case": case, "detail": ""}], "violation"
@@ -212,7 +242,7 @@ def _chunk(cases) -> dict:
 
 def cases(thorough: bool) -> List[dict]:
     out: List[dict] = []
-    specs = list(CONSTANT_PHASE) if thorough else ["R", "C", "L", "Q0.8", "W"]
+    specs = list(CONSTANT_PHASE) if thorough else ["R", "C", "L", "Q0.8", "W", "R-giga", "C-femto"]
     # (1) constant phase: smoothing x interpolation x representation
     for sp in specs:
         for sm, ip, adm in itertools.product(SMOOTHERS, INTERPOLATORS, (False, True)):
@@ -241,9 +271,14 @@ def cases(thorough: bool) -> List[dict]:
     for sp in (["Q0.8", "RQ-RC"] if not thorough else ["R", "Q0.8", "W", "RC", "RQ-RC", "RC3"]):
         for sm in (SMOOTHERS if thorough else ["modsinc", "lowess"]):
             for adm in (False, True):
-                for a in (2.0 ** 10, 1e-3):
+                for a in (2.0 ** 10, 1e-3, 1e9, 1e-9):
                     out.append({"part": "scaling", "spec": sp, "smoothing": sm, "interpolation": "makima", "adm": adm, "factor": a, "np_order": (5, 2), "weights": "mid"})
                 out.append({"part": "zero-weight", "spec": sp, "smoothing": sm, "interpolation": "makima", "adm": adm, "np_order": (5, 2), "weights": "mid"})
+    # (5b) the same named window on two grids, one call after the other (fresh process per sequence)
+    for sp in (["C", "Q0.8"] if not thorough else ["R", "C", "Q0.8", "W"]):
+        for win in ("boxcar", "hann"):
+            for grids in (("g43", "g43hi"), ("g43hi", "g43")):
+                out.append({"part": "window-sequence", "spec": sp, "window": win, "center": 1.5, "width": 3.0, "grids": list(grids), "smoothing": "none", "interpolation": "pchip"})
     # (6) filters on exactly constant / linear phase
     for sm, npo, shape in itertools.product(SMOOTHERS, NP_ORDER + [(9, 4), (7, 2)], ("constant", "linear")):
         out.append({"part": "filters", "smoothing": sm, "np_order": npo, "shape": shape})
@@ -260,7 +295,7 @@ def run(ctx) -> None:
     ctx.rule = ("constant-phase spectra (R, C, L, Q with n in {0.5, 0.8, 1}, W; two parameter scales in thorough) x 5 smoothers x 4 interpolators x "
                 "{Z, Y}; (num_points, polynomial_order) in {(3,2),(5,2),(5,3),(7,4)} x smoothers; custom weights (ones, boxcar over the middle third, "
                 "ramp) x 3 frequency grids; named windows (boxcar, hann, blackman) x 3 centres x 2 widths and the default call (window='auto'); six "
-                "RC/RQ ladders (default options; thorough: all smoother/interpolator pairs); scaling by 2^10 and 1e-3; modification of |Z| at "
+                "RC/RQ ladders (default options; thorough: all smoother/interpolator pairs); scaling by 2^10, 1e-3, 1e9 and 1e-9; the same named window on two equally long grids in sequence (corrupted moduli outside the window); modification of |Z| at "
                 "zero-weight points; every smoothing filter on exactly constant and exactly linear phase for 6 (m, p) pairs; the window generator "
                 "for 13 named windows x 3 centres x 3 widths. Tolerances: constant phase 2e-4, ladders 15 %, scaling 2e-4, zero-weight "
                 "invariance 1e-9, filters 1e-10 (calibrated on the unchanged tree, DESIGN C11).")
@@ -277,4 +312,6 @@ def replay(case: dict) -> list:
     case = dict(case)
     if "np_order" in case:
         case["np_order"] = tuple(case["np_order"])
+    if case["part"] == "window-sequence":
+        return _run_isolated(case)[0]
     return run_case(case)[0]
